@@ -528,11 +528,21 @@ def run(chk):
 
 
 def replay(path):
+    """./check C13 --replay FILE: re-evaluate the recorded expression on the current tree"""
     d = json.load(open(path))
     r = d["replay"]
     if "src" not in r:
-        print(json.dumps(d, indent=1))
+        print(f"replay {d.get('key')}: nothing executable recorded ({d.get('what', '')[:200]})")
         return 1
-    out = run_harness([{"op": "run", "src": r["src"], "get": r.get("get", [])}])[0]
-    print(json.dumps({"key": d["key"], "what": d["what"], "now": out}, indent=1))
+    out = run_harness([{"op": "run", "src": r["src"], "get": r.get("get", ["r"])}])[0]
+    f = _resp_fail(out)
+    dump = f if f is not None else out["vals"][r.get("get", ["r"])[0]]
+    ok = not nonfinite_in(dump) and f is None
+    if ok and "expected" in r:
+        ok = ("ERR" if dump.startswith("(error ") else dump) == r["expected"]
+    print(f"replay {d.get('key')}: {r['src']}  ->  {dump[:300]}" + (f"   (expected {r['expected']})" if "expected" in r else ""))
+    if ok:
+        print("OK property=C13 replay passes on the current tree")
+        return 0
+    print(f"VIOLATION property=C13 replay={path}")
     return 1
